@@ -125,6 +125,19 @@ func genCase(t *rapid.T) Case {
 	}
 	// any reader may hand over its last bytes together with io.EOF (as net/http bodies do)
 	c.Reader.EOFWithData = rapid.IntRange(0, 3).Draw(t, "eofWithData") == 0
+	if c.Size >= 4<<20-2 && rapid.Bool().Draw(t, "bigMismatch") {
+		// around the 4 MiB mark the interesting question is whether the checks of
+		// small contents still apply: trailing bytes, a flipped byte, a short stream
+		c.Reader.Kind = rapid.SampledFrom([]string{"long", "long", "corrupt", "short"}).Draw(t, "bigReader")
+		switch c.Reader.Kind {
+		case "long":
+			c.Reader.K = rapid.IntRange(1, 5).Draw(t, "bigExtra")
+		default:
+			c.Reader.K = rapid.IntRange(0, c.Size).Draw(t, "bigK")
+		}
+		c.Sink = rapid.SampledFrom([]string{"readall", "fetchall", "memory", "verifyreader", "oci-storage", "file-named"}).Draw(t, "bigSink")
+		c.DescMut = "exact"
+	}
 	if c.Size >= 1<<20-2 {
 		// megabytes are not delivered a few bytes at a time
 		switch c.Reader.Kind {
@@ -591,6 +604,14 @@ func runStoreSink(ctx context.Context, c Case, desc ocispec.Descriptor, v verdic
 		st = s
 		if c.Sink == "file-named" {
 			pushDesc.Annotations = map[string]string{ocispec.AnnotationTitle: "blob.bin"}
+			if c.Seed%2 == 1 {
+				// the working directory was used before: an older, longer file has the name
+				os.MkdirAll(wd, 0o755)
+				if err := os.WriteFile(filepath.Join(wd, "blob.bin"), bytes.Repeat([]byte{'O'}, len(b)+33), 0o644); err != nil {
+					return res, vt.Failf("harness/file", "%v", err)
+				}
+				res.Classes = append(res.Classes, "named-push-over-an-older-longer-file")
+			}
 		}
 	case "limit":
 		st = content.LimitStorage(memory.New(), int64(len(b)+c.Limit))
